@@ -22,6 +22,11 @@ def run(tier: str, keep: bool = False) -> int:
     r.model("freeK1", "FamAck(2, {1, 2})", K=1, faults=FAULTS + ["delay"], pacing="free", invariants=inv, ticks=[1000])
     r.model("canonK2", fam2, K=2, faults=FAULTS, invariants=inv, properties=["Completes"], fair=True)
     r.model("freeK2", "FamAck(3, {2})", K=2, faults=FAULTS + ["delay"], pacing="free", invariants=inv, timeout=1500)
+    # the two entities' positive ACK intervals differ by more than the other side's limit (the receiver's Finished timer runs
+    # 4x slower than the sender's EOF timer and vice versa): recovery may not depend on the intervals matching
+    asym = ('Numbered({ [c EXCEPT !.ackInt = 1000, !.ackIntD = 4000] : c \\in FamAck(3, {1}) } \\cup '
+            '{ [c EXCEPT !.ackInt = 4000, !.ackIntD = 1000] : c \\in FamAck(3, {1}) })')
+    r.model("asymK2", asym, K=2, faults=["drop"], invariants=inv, properties=["Completes"], fair=True)
     if not q:
         r.model("freeK2b", "FamAck(3, {1, 3})", K=2, faults=FAULTS + ["delay"], pacing="free", invariants=inv, ticks=[400, 1000], timeout=2400)
         r.model("canonK3", "FamAck(4, {0, 1, 3})", K=3, faults=FAULTS, invariants=inv, timeout=2400)
@@ -29,6 +34,7 @@ def run(tier: str, keep: bool = False) -> int:
     props = ["C01", "C03", "C06", "C10", "C15"]
     r.schedules("schedK1", fam1, props, K=1, faults=FAULTS, limit=1500 if q else None)
     r.schedules("schedK2", fam2, props, K=2, faults=["drop", "dup", "swap"], limit=600 if q else None)
+    r.schedules("asymK2", asym, props, K=2, faults=["drop"], limit=700 if q else None)
     if not q:
         # one PDU delayed / overtaken (hold ... release) combined with a loss: all schedules of one configuration family
         r.schedules("schedK2hold", "{c \\in FamAck(3, {3}) : ~c.closure}", props, K=2, faults=["drop", "hold"], limit=40000, timeout=2400)
